@@ -13,7 +13,8 @@ RULE = ("Cases: 1-3 recordings at an integer sampling rate from {20..1000 Hz} (d
         "samples, window length constructed as m/fs (exact multiple) or (m+phi)/fs with phi in [0.05,0.95] so that the "
         "expected k = m never depends on floating-point division, also windows longer than the record; filter corners "
         "(none / high / low / band), detrend in {linear, constant, none, None}, deployed and target orientation. "
-        "Non-trivial = at least two windows; distinct by SHA-1 of the case.")
+        "Non-trivial = at least two windows; distinct by SHA-1 of the case."
+        ' Scale pass: one record of q*k+r samples with k = 2^14-3.2e6 sample intervals per window (tiling only).')
 ASSUMPTIONS = [
     "scipy.signal.butter/sosfiltfilt/detrend are trusted (shared with the code under test); the oracle fixes only the order of the steps, the slicing and the rotation",
     "window lengths within 0.05 of a sample interval of an integer multiple are not generated (k would be a knife edge)",
